@@ -177,6 +177,7 @@ func extractC02(c *Ctx) {
 	extractWithCtxShape(c)
 	extractPrograms(c)
 	extractWSCloseOrder(c)
+	extractHTTPSendOrder(c)
 }
 
 // WebSocket handler epilogue (C02): in both WebSocket ServeHTTP methods the handler must close `stream.done`
@@ -637,4 +638,65 @@ func extractWSCloseOrder(c *Ctx) {
 	}
 	c.Add("wsCloseOrder", "List (String × List String)", "["+strings.Join(entries, ", ")+"]", strings.Join(srcs, " "),
 		"source order of SetDeadline / mutex Lock / WriteMessage / closeGracefully in the functions that start the WebSocket closing handshake")
+}
+
+// HTTP handler epilogue (lean/GB/C02/HttpEpilogue.lean): the response-side critical sections of the two HTTP stream
+// adapters. Tokens in source order: "waitRead" (<-s.readCh), "Lock" / "Unlock" (s.mu), "ifFinishedReturn" (an if on
+// s.finished whose body returns), "setFinished" (s.finished = true), "Write" (ResponseWriter.Write / Flush /
+// respstream.Transcode — everything that puts bytes on the response).
+func extractHTTPSendOrder(c *Ctx) {
+	var entries, srcs []string
+	for _, x := range []struct{ file, recv, name string }{
+		{"webbridge/http.go", "httpStream", "send"},
+		{"webbridge/grpcweb.go", "gRPCWebStream", "send"},
+		{"webbridge/http.go", "httpStream", "finish"},
+		{"webbridge/grpcweb.go", "gRPCWebStream", "finish"},
+	} {
+		label := x.recv + "." + x.name
+		var evs []string
+		src := x.file + ":?"
+		if fd := c.FuncDecl(x.file, x.recv, x.name); fd != nil && fd.Body != nil {
+			src = c.Pos(fd)
+			ast.Inspect(fd.Body, func(n ast.Node) bool {
+				switch v := n.(type) {
+				case *ast.DeferStmt:
+					if strings.HasSuffix(c.Src(v.Call.Fun), ".mu.Unlock") {
+						evs = append(evs, "deferUnlock")
+						return false
+					}
+				case *ast.UnaryExpr:
+					if v.Op == token.ARROW && strings.HasSuffix(c.Src(v.X), ".readCh") {
+						evs = append(evs, "waitRead")
+					}
+				case *ast.IfStmt:
+					if strings.HasSuffix(c.Src(v.Cond), ".finished") && len(v.Body.List) > 0 {
+						if _, ok := v.Body.List[len(v.Body.List)-1].(*ast.ReturnStmt); ok {
+							evs = append(evs, "ifFinishedReturn")
+						}
+					}
+				case *ast.AssignStmt:
+					if len(v.Lhs) == 1 && len(v.Rhs) == 1 && strings.HasSuffix(c.Src(v.Lhs[0]), ".finished") && c.Src(v.Rhs[0]) == "true" {
+						evs = append(evs, "setFinished")
+					}
+				case *ast.CallExpr:
+					fun := c.Src(v.Fun)
+					switch {
+					case strings.HasSuffix(fun, ".mu.Lock"):
+						evs = append(evs, "Lock")
+					case strings.HasSuffix(fun, ".mu.Unlock"):
+						evs = append(evs, "Unlock")
+					case strings.HasSuffix(fun, ".Write") || strings.HasSuffix(fun, ".Flush") || strings.HasSuffix(fun, ".respstream.Transcode"):
+						evs = append(evs, "Write")
+					}
+				}
+				return true
+			})
+		} else {
+			evs = []string{"<not found>"}
+		}
+		entries = append(entries, fmt.Sprintf("(%s, %s)", LeanStr(label), LeanStrList(evs)))
+		srcs = append(srcs, src)
+	}
+	c.Add("httpSendOrder", "List (String × List String)", "["+strings.Join(entries, ", ")+"]", strings.Join(srcs, " "),
+		"source order of readCh wait / mutex / finished check / response writes in send() and finish() of the HTTP stream adapters")
 }
